@@ -1,6 +1,6 @@
 import Driver.Proto
 import Gotree.Spec.C15
-import Gotree.Lemmas.C15HeapEdits
+import Gotree.Model.C15HeapEdits
 
 namespace Gotree.Driver.C15
 open Gotree Gotree.Driver Gotree.C15
@@ -19,10 +19,34 @@ def shapeTags (t : T) : List String :=
   tagIf (!t.noSingle) "singles" ++ tagIf (t.edges.any (·.len == NIL)) "absent-len" ++
   tagIf (t.edges.any (·.len == 0)) "zero-len" ++ tagIf (!t.binary) "multif"
 
-/-- compare model result and implementation on obs_C15; tag `exact` when the whole dumps agree -/
-def tie (tags : List String) (model after : T) : Verdict :=
-  if obsEq model after then ⟨.pass, tagIf (model == after) "exact" ++ tags, ""⟩
-  else ⟨.tie, tags, "model " ++ model.dump⟩
+/-- branch data as a key: length, support, p-value, id, comments -/
+def edgeKey (e : EdgeD) : String :=
+  showRat e.len ++ "," ++ showRat e.sup ++ "," ++ showRat e.pval ++ "," ++ toString e.id ++ "," ++ showStrList e.comments
+
+mutual
+def nodeKeys : T → List String
+  | .node d _ k => (escape d.name ++ "," ++ showStrList d.comments) :: nodeKeysL k
+def nodeKeysL : Kids → List String
+  | [] => []
+  | (_, t) :: r => nodeKeys t ++ nodeKeysL r
+end
+
+/-- the part of `obs_C15` beyond the distances (DESIGN §4.2 as widened in round 3, backing the `*_edges`
+    theorems and "exactly the requested tips"): the unrooted split map with length and support, the tip
+    branch lengths, the multiset of branch data (length, support, p-value, id, comments) and the multiset
+    of node data (name, comments).  Child order and parent positions stay outside (fidelity tag `exact`). -/
+def obs2 (t : T) : List USplit × List (List String × Rat) × List String × List String :=
+  (t.usplits, t.tipLens, sortStrings (t.edges.map edgeKey), sortStrings (nodeKeys t))
+
+def obs2Eq (a b : T) : Bool := obs2 a == obs2 b
+
+/-- compare model result and implementation on obs_C15; tag `exact` when the whole dumps agree.
+    In the CLI tier only the distances and tips are compared (Newick drops ids, supports above named nodes). -/
+def tie (cli : Bool) (tags : List String) (model after : T) : Verdict :=
+  if !(obsEq model after) then ⟨.tie, tags, "model " ++ model.dump⟩
+  else if !cli && !(obs2Eq model after) then
+    ⟨.tie, tags, "same distances, but the split map (length, support), the branch data or the node data differ from the model " ++ model.dump⟩
+  else ⟨.pass, tagIf (model == after) "exact" ++ tags, ""⟩
 
 /-- "root[,root];id:data=p.p.p;id:data=…" → (roots, cells with their hashed content) -/
 def parseHeapM (s : String) : Option (List Nat × List (Nat × Nat × List Nat)) :=
@@ -112,10 +136,10 @@ def handleCore (cli : Bool) (op : String) (f : List String) : Verdict :=
           if wf != "" then ⟨.oracle, tags, "malformed heap after graft: " ++ wf⟩
           else if !valid then ⟨.pass, "skip-dupnames" :: tags, ""⟩
           else if !(graftOK t tip g after) then ⟨.oracle, tags, "graft: tips or distances of pre-existing tips changed"⟩
-          else if !(indexOK ia after) then ⟨.oracle, tags, "graft: the tip index does not answer for exactly the tips: " ++ ia⟩
+          else if !(indexOK ia after) then ⟨.tie, tags, "graft: the tip index does not answer for exactly the tips: " ++ ia⟩
           else if !(derivedOK ia after false) then ⟨.tie, tags, "graft: tip ids differ from the model's UpdateTipIndex: " ++ ia⟩
           else match m with
-            | .ok mt => tie ("nontrivial" :: "ok" :: tags) mt after
+            | .ok mt => tie cli ("effective" :: "ok" :: tags) mt after
             | .error e => ⟨.tie, tags, "model rejects: " ++ e⟩
       else match m with
         | .error _ =>
@@ -138,12 +162,12 @@ def handleCore (cli : Bool) (op : String) (f : List String) : Verdict :=
           else if !valid then ⟨.pass, "skip-dupnames" :: tags, ""⟩
           else if !(disjoint t.tipNames t2.tipNames) then ⟨.oracle, tags, "merge accepted trees sharing a tip name"⟩
           else if !(mergeOK t t2 after) then ⟨.oracle, tags, "merge: tips or distances of pre-existing tips changed"⟩
-          else if !(indexOK ia after) then ⟨.oracle, tags, "merge: the tip index does not answer for exactly the tips: " ++ ia⟩
+          else if !(indexOK ia after) then ⟨.tie, tags, "merge: the tip index does not answer for exactly the tips: " ++ ia⟩
           else match m with
             | .ok mt =>
               if !(bitsOK ia) then ⟨.tie, tags, "merge: the branch bitsets were not refreshed (ReinitIndexes): " ++ ia⟩
               else if !(derivedOK ia after true) then ⟨.tie, tags, "merge: tip ids / bitsets differ from the model's ReinitIndexes: " ++ ia⟩
-              else tie ("nontrivial" :: "ok" :: tags) mt after
+              else tie cli ("effective" :: "ok" :: tags) mt after
             | .error e => ⟨.tie, tags, "model rejects: " ++ e⟩
       else match m with
         | .error _ =>
@@ -170,23 +194,23 @@ def handleCore (cli : Bool) (op : String) (f : List String) : Verdict :=
             -- an empty name among the tips or in a group: outside the theorems' hypotheses (the code
             -- uses "" as "no existing tip yet"); the model must still do what the code does
             (match outcome == "ok", merr with
-             | true, none => tie ("empty-name" :: tags) mt after
-             | false, some _ => tie ("empty-name" :: "rejected" :: tags) mt after
+             | true, none => tie cli ("empty-name" :: tags) mt after
+             | false, some _ => tie cli ("empty-name" :: "rejected" :: tags) mt after
              | true, some e => ⟨.tie, "empty-name" :: tags, "model rejects: " ++ e⟩
              | false, none => ⟨.tie, "empty-name" :: tags, "model accepts, implementation fails"⟩)
           else if outcome == "ok" then
             if !(insertOK t groups after) then ⟨.oracle, tags, "insert identical: tips, distances of pre-existing tips, or distance 0 to the model"⟩
-            else if !(indexOK ia after) then ⟨.oracle, tags, "insert identical: the tip index does not answer for exactly the tips: " ++ ia⟩
+            else if !(indexOK ia after) then ⟨.tie, tags, "insert identical: the tip index does not answer for exactly the tips: " ++ ia⟩
             else if !(bitsOK ia) then ⟨.tie, tags, "insert identical: the branch bitsets were not refreshed (ReinitIndexes): " ++ ia⟩
             else if !(derivedOK ia after true) then ⟨.tie, tags, "insert identical: tip ids / bitsets differ from the model's ReinitIndexes: " ++ ia⟩
             else match merr with
-              | none => tie (tagIf (after != t) "nontrivial" ++ "ok" :: tags) mt after
+              | none => tie cli (tagIf (after != t) "effective" ++ "ok" :: tags) mt after
               | some e => ⟨.tie, tags, "model rejects: " ++ e⟩
           else match merr with
             | some _ =>
               -- the insertions made before the failure stay: pre-existing distances still may not move
               if !(distAgree t after t.tipNames) then ⟨.oracle, tags, "failed insert changed distances of pre-existing tips"⟩
-              else tie ("rejected" :: tags) mt after
+              else tie cli ("rejected" :: tags) mt after
             | none => ⟨.tie, tags, "model accepts, implementation fails"⟩
     | _, _ => bad "C15.insid fields"
   | "rmsingle", [idx, dT, outcome, dA, wf, dd] =>
@@ -208,7 +232,7 @@ def handleCore (cli : Bool) (op : String) (f : List String) : Verdict :=
             -- beyond obs_C15 (DESIGN §4.2): length and support per unrooted split of the fused branches
             -- (not in the CLI tier: Newick cannot carry the support of a branch above a named node or a tip)
             ⟨.tie, tags, "per-split length/support differ from the model: " ++ (removeSingle t).dump⟩
-          else tie (tagIf (!t.noSingle) "nontrivial" ++ tags) (removeSingle t) after
+          else tie cli (tagIf (!t.noSingle) "effective" ++ tags) (removeSingle t) after
     | none => bad "C15.rmsingle fields"
   | "subtree", [dT, pathS, outcome, dS, wf, dTa, txt0, txt1, ia, sh] =>
     match T.undump dT, parseNatList pathS with
@@ -226,10 +250,10 @@ def handleCore (cli : Bool) (op : String) (f : List String) : Verdict :=
             ⟨.tie, tags, "table (d) says a reference field is shared, no shared cell was observed"⟩
           else if !valid then ⟨.pass, "skip-dupnames" :: tags, ""⟩
           else if !(subTreeOK t n sub) then ⟨.oracle, tags, "subtree: tips or distances differ from the source"⟩
-          else if sub.uniqueTips && !(indexOK ia sub) then ⟨.oracle, tags, "subtree: the tip index does not answer for exactly the tips: " ++ ia⟩
+          else if sub.uniqueTips && !(indexOK ia sub) then ⟨.tie, tags, "subtree: the tip index does not answer for exactly the tips: " ++ ia⟩
           else if sub.uniqueTips && !(bitsOK ia) then ⟨.tie, tags, "subtree: the branch bitsets do not describe the subtree (ReinitIndexes): " ++ ia⟩
           else if sub.uniqueTips && !(derivedOK ia sub true) then ⟨.tie, tags, "subtree: tip ids / bitsets differ from the model's ReinitIndexes: " ++ ia⟩
-          else tie (tagIf (!n.isLeaf) "nontrivial" ++ tags) m sub
+          else tie cli (tagIf (!n.isLeaf) "effective" ++ tags) m sub
         | _, _, _ => bad "C15.subtree dump/path"
     | _, _ => bad "C15.subtree fields"
   | "clone", [idx, dT, outcome, dC, wf, dTa, txtT, txtC, idsT, idsC, ia, sh] =>
@@ -246,12 +270,12 @@ def handleCore (cli : Bool) (op : String) (f : List String) : Verdict :=
           else if sh != "" then ⟨.oracle, tags, "the clone shares heap cells with its source: " ++ sh⟩
           else if txtT != txtC then ⟨.oracle, tags, "text of the clone differs from the text of the source"⟩
           else if !(cloneOK t c) then ⟨.oracle, tags, "clone differs from its source (names, comments, branch data, order)"⟩
-          else if idsT != idsC then ⟨.oracle, tags, "node ids of the clone differ"⟩
-          else if t.uniqueTips && !(indexOK ia c) then ⟨.oracle, tags, "clone: the tip index does not answer for exactly the tips: " ++ ia⟩
+          else if idsT != idsC then ⟨.oracle, tags, "clone is not an exact copy: node ids / depths or the tip counts / hash codes of the branches differ"⟩
+          else if t.uniqueTips && !(indexOK ia c) then ⟨.tie, tags, "clone: the tip index does not answer for exactly the tips: " ++ ia⟩
           else if t.uniqueTips && !(bitsOK ia) then ⟨.tie, tags, "clone: the copied branch bitsets do not describe the clone: " ++ ia⟩
           else if t.uniqueTips && !(derivedOK ia c true) then ⟨.tie, tags, "clone: tip ids / copied bitsets differ from the model: " ++ ia⟩
-          else if clone t == c then ⟨.pass, "exact" :: "nontrivial" :: tags, ""⟩
-          else if obsEq (clone t) c then ⟨.pass, "nontrivial" :: tags, ""⟩
+          else if clone t == c then ⟨.pass, "exact" :: "effective" :: tags, ""⟩
+          else if obsEq (clone t) c then ⟨.pass, "effective" :: tags, ""⟩
           else ⟨.tie, tags, "model clone " ++ (clone t).dump⟩
     | none => bad "C15.clone fields"
   | "hist", [kind, side, dT, pathS, script, outcomes, nchanged, twin0, txt0, twins, txts, wfs] =>
@@ -322,7 +346,7 @@ def handleCore (cli : Bool) (op : String) (f : List String) : Verdict :=
         if !okPath then ⟨.tie, tags, "heap path of the node does not resolve in the pointer graph of the source"⟩
         else if !(Heap.isoFromD h1 h0.next ccells croot) then
           ⟨.tie, tags, "the heap model of the copy differs (shape or copied content) from the pointer graph of the real copy"⟩
-        else ⟨.pass, "nontrivial" :: tags, ""⟩
+        else ⟨.pass, "effective" :: tags, ""⟩
       | _, _ => bad "C15.heap dump/path"
     | _, _, _ => bad "C15.heap fields"
   | "heapedit", ["reroot", dT, pathS, outcome, before, after] =>
@@ -345,7 +369,7 @@ def handleCore (cli : Bool) (op : String) (f : List String) : Verdict :=
           let h0 : Heap.H := Heap.ofCellsD ((base, 0, [root, base - 1]) :: (base - 1, 0, []) :: cells)   -- Tree [root, tip index]
           let h1 := Heap.run ((Heap.rerootProgs slots).map (Heap.runProg base)) h0
           let abase := (Heap.ofCellsD acells).next + 1
-          if Heap.isoFromD h1 base ((abase, 0, [aroot, abase - 1]) :: (abase - 1, 0, []) :: acells) abase then ⟨.pass, tagIf (!path.isEmpty) "nontrivial" ++ tags, ""⟩
+          if Heap.isoFromD h1 base ((abase, 0, [aroot, abase - 1]) :: (abase - 1, 0, []) :: acells) abase then ⟨.pass, tagIf (!path.isEmpty) "effective" ++ tags, ""⟩
           else ⟨.tie, tags, "the heap program of Reroot yields another pointer graph than the real Reroot"⟩
     | _, _, _, _ => bad "C15.heapedit fields"
   | "heapedit", [hop, dT, argE, outcome, before, after, dT2] =>
@@ -365,7 +389,7 @@ def handleCore (cli : Bool) (op : String) (f : List String) : Verdict :=
       let am := (Heap.ofCells acs).next
       let check (prog : Heap.H → List Heap.Op) (extra : List String) : Verdict :=
         let h1 := Heap.runProg frame prog h0
-        if Heap.isoFrom h1 (m + 1) ((am + 1, [aroot, am]) :: (am, []) :: acs) (am + 1) then ⟨.pass, "nontrivial" :: extra ++ tags, ""⟩
+        if Heap.isoFrom h1 (m + 1) ((am + 1, [aroot, am]) :: (am, []) :: acs) (am + 1) then ⟨.pass, "effective" :: extra ++ tags, ""⟩
         else ⟨.tie, extra ++ tags, "the heap program of " ++ hop ++ " yields another pointer graph than the real call"⟩
       -- the tip's parent in the heap: path, number of neighbours, slot of the tip
       let locate : Option (List Nat × Nat × Nat × EdgeD × Bool) :=
@@ -383,9 +407,39 @@ def handleCore (cli : Bool) (op : String) (f : List String) : Verdict :=
       let checkL (progs : List (Heap.H → List Heap.Op)) (extra : List String) : Verdict :=
         let h1 := Heap.run (progs.map (Heap.runProg frame)) h0
         if Heap.isoFrom h1 (m + 1) ((am + 1, [aroot, am]) :: (am, []) :: acs) (am + 1) then
-          ⟨.pass, tagIf (!progs.isEmpty) "nontrivial" ++ extra ++ tags, ""⟩
+          ⟨.pass, tagIf (!progs.isEmpty) "effective" ++ extra ++ tags, ""⟩
         else ⟨.tie, extra ++ tags, "the heap programs of " ++ hop ++ " yield another pointer graph than the real call"⟩
       match hop with
+      | "prune" =>
+        -- transcribed: the tip's parent is not the root, has no single-child node around, and keeps its
+        -- parent and one child (case 2, oriented) or more (case 3); the other cases of removeTip are not
+        (match findLeaf arg t with
+         | some p =>
+           let q := p.dropLast
+           let i := p.getLastD 0
+           if q.isEmpty then ⟨.pass, "not-transcribed" :: tags, ""⟩ else
+           (match Heap.heapPath t q.dropLast [0, 0] true with
+            | some (ppath, .node _ ppP kidsP, isRootP) =>
+              (match kidsP[q.getLastD 0]? with
+               | some (_, .node _ ppI kidsI) =>
+                 let kP := kidsP.length + (if isRootP then 0 else 1)
+                 let sI := Heap.slot isRootP ppP (q.getLastD 0)
+                 let kI := kidsI.length + 1
+                 let sTip := Heap.slot false ppI i
+                 if kidsI.length < 2 then ⟨.pass, "not-transcribed" :: tags, ""⟩
+                 else if kidsI.length ≥ 3 then checkL (Heap.removeTipProgs ppath kP sI kI sTip 0 0 0) ["case3"]
+                 else
+                   -- the other child of I, and its slot after the tip has been deleted
+                   let j := if i == 0 then 1 else 0
+                   let sj := Heap.slot false ppI j
+                   let sc := if sTip < sj then sj - 1 else sj
+                   (match kidsI[j]? with
+                    | some (_, .node _ ppC kidsC) =>
+                      checkL (Heap.removeTipProgs ppath kP sI kI sTip sc (kidsC.length + 1) ppC) ["case2"]
+                    | none => bad "C15.heapedit prune child")
+               | none => bad "C15.heapedit prune parent")
+            | none => bad "C15.heapedit prune path")
+         | none => bad "C15.heapedit prune: tip not found")
       | "rmsingle" => checkL (Heap.rsProgs t [0, 0] true) (tagIf (hasChain t) "single-chain" ++ tagIf (!allPposZero t) "ppos-nonzero")
       | "merge" => check Heap.mergeProg []
       | "graft" =>
@@ -408,8 +462,8 @@ def handleCore (cli : Bool) (op : String) (f : List String) : Verdict :=
       if outcome.startsWith "panic" then ⟨.oracle, tags, "gotree " ++ cmd ++ " crashed: " ++ outcome⟩
       else if outcome != expOutcome then ⟨.tie, tags, "gotree " ++ cmd ++ ": exit " ++ outcome ++ ", model says " ++ expOutcome⟩
       else match expect, got with
-        | none, none => ⟨.pass, "nontrivial" :: tags, ""⟩
-        | some m, some g => if obsEq m g then ⟨.pass, "nontrivial" :: tagIf (zeroPpos m == zeroPpos g) "exact" ++ tags, ""⟩
+        | none, none => ⟨.pass, "effective" :: tags, ""⟩
+        | some m, some g => if obsEq m g then ⟨.pass, "effective" :: tagIf (zeroPpos m == zeroPpos g) "exact" ++ tags, ""⟩
                             else ⟨.tie, tags, "gotree " ++ cmd ++ " printed another tree than the model: " ++ m.dump⟩
         | none, some _ => ⟨.tie, tags, "gotree " ++ cmd ++ " printed a tree, the model prints none"⟩
         | some m, none => ⟨.tie, tags, "gotree " ++ cmd ++ " printed nothing, the model prints " ++ m.dump⟩
